@@ -205,3 +205,154 @@ mod tests {
         }
     }
 }
+
+// ---------------------------------------------------------------------------------------
+// families beyond the small scope: sizes around limits a maintainer might plausibly introduce (inline capacities,
+// sliding windows, two-digit suffixes, "switch algorithm above n" thresholds). Fixed, enumerated, cheap.
+
+/// n sibling elements whose names differ only in separators (`a`, `a_`, `a-`, `a.`, `a__`, ...): they all have the
+/// PascalCase form `A` and the snake_case form `a`, and each gets a struct (one attribute) - n colliding struct names
+/// and n colliding field identifiers in one struct
+pub fn collision_swarm(n: usize) -> Node {
+    let mut kids = Vec::with_capacity(n);
+    for k in 0..n {
+        // bijective base-3 numeral over the separators
+        let mut name = String::from("a");
+        let mut x = k;
+        while x > 0 {
+            x -= 1;
+            name.push(['_', '-', '.'][x % 3]);
+            x /= 3;
+        }
+        kids.push(Item::Child(Node { name, attrs: vec!["k".to_string()], items: vec![] }));
+    }
+    Node { name: "r".to_string(), attrs: vec![], items: kids }
+}
+
+pub const BIG_SIZES: &[usize] = &[9, 15, 16, 17, 24, 25, 26, 27, 31, 32, 33, 34, 40, 41, 42, 63, 64, 65, 99, 100, 101, 127, 128, 129, 255, 256, 257, 300];
+
+/// (label, document sequence)
+pub fn big_families() -> Vec<(String, Vec<Node>)> {
+    let leaf = |name: &str| Node { name: name.to_string(), attrs: vec![], items: vec![] };
+    let el = |name: &str, kids: Vec<Node>| Node { name: name.to_string(), attrs: vec![], items: kids.into_iter().map(Item::Child).collect() };
+    let with_attrs = |attrs: Vec<String>| Node { name: "p".to_string(), attrs, items: vec![] };
+    let names = |k: usize| -> Vec<String> { (0..k).map(|i| format!("a{}", i)).collect() };
+    let kids = |k: usize| -> Vec<Node> { (0..k).map(|i| leaf(&format!("k{}", i))).collect() };
+    let fresh = ["zz", "zy", "b_new", "Zx", "a_new", "zw"];
+    let mut out: Vec<(String, Vec<Node>)> = Vec::new();
+    for &n in BIG_SIZES {
+        for (i, docs) in threshold_family(n).into_iter().enumerate() {
+            out.push((format!("threshold n={} #{}", n, i), docs));
+        }
+        out.push((format!("collision swarm n={}", n), vec![collision_swarm(n)]));
+        // a swarm spread over two documents (the second adds the last third)
+        let full = collision_swarm(n);
+        let mut first = full.clone();
+        first.items.truncate(n - n / 3);
+        out.push((format!("collision swarm n={} in two documents", n), vec![first, full]));
+        // several new attributes / children at once on top of n known ones, in and against name order
+        let mut more = names(n);
+        more.extend(fresh.iter().map(|s| s.to_string()));
+        out.push((format!("n={} attributes, then six new ones", n), vec![el("r", vec![with_attrs(names(n)), with_attrs(more.clone())])]));
+        let mut front = fresh.iter().map(|s| s.to_string()).collect::<Vec<_>>();
+        front.extend(names(n));
+        out.push((format!("n={} attributes, then six new ones in front", n), vec![el("r", vec![with_attrs(names(n)), with_attrs(front)])]));
+        out.push((format!("n={} attributes, six new ones in a second document", n), vec![el("r", vec![with_attrs(names(n))]), el("r", vec![with_attrs(more)])]));
+        let mut more_kids = kids(n);
+        more_kids.extend(fresh.iter().map(|s| leaf(s)));
+        out.push((format!("n={} children, then six new ones", n), vec![el("r", vec![el("p", kids(n)), el("p", more_kids)])]));
+        // nesting depth n: distinct names, one name throughout, alternating names; the innermost element carries an
+        // attribute and a text leaf, a second document adds a sibling leaf at the bottom (optional at depth n)
+        {
+            let chain = |name_of: &dyn Fn(usize) -> String, extra: bool| -> Node {
+                let mut bottom_kids = vec![Item::Child(Node { name: "v".to_string(), attrs: vec![], items: vec![Item::Chars { blank: false }] })];
+                if extra {
+                    bottom_kids.push(Item::Child(leaf("w")));
+                }
+                let mut cur = Node { name: name_of(n), attrs: vec!["k".to_string()], items: bottom_kids };
+                for lvl in (1..n).rev() {
+                    cur = Node { name: name_of(lvl), attrs: vec![], items: vec![Item::Child(cur)] };
+                }
+                cur
+            };
+            let distinct = |i: usize| format!("l{}", i);
+            let same = |_i: usize| "a".to_string();
+            let alternating = |i: usize| if i % 2 == 0 { "a".to_string() } else { "b".to_string() };
+            out.push((format!("chain of depth n={} over distinct names", n), vec![chain(&distinct, false)]));
+            out.push((format!("chain of depth n={} over distinct names, two documents", n), vec![chain(&distinct, false), chain(&distinct, true)]));
+            out.push((format!("chain of depth n={} over one name", n), vec![chain(&same, false), chain(&same, true)]));
+            out.push((format!("chain of depth n={} over alternating names", n), vec![chain(&alternating, true), chain(&alternating, false)]));
+        }
+        // a child, n other children, the same child again (sliding windows over the names seen in one parent)
+        let mut around = vec![leaf("x")];
+        around.extend(kids(n));
+        around.push(leaf("x"));
+        out.push((format!("a child repeated after n={} other children", n), vec![el("r", vec![el("p", around)])]));
+    }
+    out
+}
+
+/// run `oracle` over all big families on 16 threads; returns (families run, first failure as (label, message, documents))
+pub fn run_big_families<F>(oracle: F) -> (u64, Option<(String, String, Vec<String>)>)
+where
+    F: Fn(&[&Node], &[Vec<u8>]) -> Result<bool, String> + Sync,
+{
+    run_big_families_where(|_| true, oracle)
+}
+
+/// the same over the families whose label satisfies `keep`
+pub fn run_big_families_where<K, F>(keep: K, oracle: F) -> (u64, Option<(String, String, Vec<String>)>)
+where
+    K: Fn(&str) -> bool,
+    F: Fn(&[&Node], &[Vec<u8>]) -> Result<bool, String> + Sync,
+{
+    let fams: Vec<(String, Vec<Node>)> = big_families().into_iter().filter(|(l, _)| keep(l)).collect();
+    let next = std::sync::atomic::AtomicUsize::new(0);
+    let fail: std::sync::Mutex<Option<(usize, String)>> = std::sync::Mutex::new(None);
+    std::thread::scope(|s| {
+        for _ in 0..16 {
+            let fams = &fams;
+            let next = &next;
+            let fail = &fail;
+            let oracle = &oracle;
+            s.spawn(move || loop {
+                let i = next.fetch_add(1, std::sync::atomic::Ordering::Relaxed);
+                if i >= fams.len() || fail.lock().unwrap().is_some() {
+                    break;
+                }
+                let refs: Vec<&Node> = fams[i].1.iter().collect();
+                let bytes: Vec<Vec<u8>> = fams[i].1.iter().map(|d| crate::xmlser::canonical(d).into_bytes()).collect();
+                if let Err(e) = oracle(&refs, &bytes) {
+                    let mut g = fail.lock().unwrap();
+                    if g.as_ref().map(|(j, _)| *j > i).unwrap_or(true) {
+                        *g = Some((i, e));
+                    }
+                    break;
+                }
+            });
+        }
+    });
+    let n = fams.len() as u64;
+    match fail.into_inner().unwrap() {
+        None => (n, None),
+        Some((i, e)) => {
+            let docs: Vec<String> = fams[i].1.iter().map(|d| { let s = crate::xmlser::canonical(d); if s.len() > 400 { format!("{}... ({} bytes)", s.chars().take(400).collect::<String>(), s.len()) } else { s } }).collect();
+            (n, Some((fams[i].0.clone(), e, docs)))
+        }
+    }
+}
+
+/// replay of one family by label
+pub fn replay_big_family<F>(label: &str, oracle: F) -> Result<(), String>
+where
+    F: Fn(&[&Node], &[Vec<u8>]) -> Result<bool, String>,
+{
+    for (l, docs) in big_families() {
+        if l == label {
+            let refs: Vec<&Node> = docs.iter().collect();
+            let bytes: Vec<Vec<u8>> = docs.iter().map(|d| crate::xmlser::canonical(d).into_bytes()).collect();
+            return oracle(&refs, &bytes).map(|_| ());
+        }
+    }
+    Err(format!("no family is labelled `{}`", label))
+}
